@@ -49,6 +49,7 @@ DOC = {
         "C10-R4": "every calculate_matrix implementation returns an array allocated in that call",
         "C10-R5": "every accumulation into provider state reachable from an evaluation is dominated, within the evaluation, by a reset of that state; matrix caches are recomputed unconditionally",
         "C10-R6": "in every numba kernel compiled with parallel=True each array write inside a prange loop is indexed by the outermost prange variable (or delegated to a callee on a slice selected by it) and no scalar is carried across iterations",
+        "C10-R8": "the expression refresh - the only operation applied to the caller's parameters and the first step of every evaluation - is an exact, history independent fixed point (same obligations as C12-R2): otherwise the objective at a vector depends on the vector evaluated before",
         "C10-R7": "no random/time/uuid source and no iteration over a set is reachable from the objective function",
     },
     "declined": ["bit-level reproducibility of BLAS/LAPACK and of numba's thread scheduling for race-free kernels"],
@@ -635,9 +636,16 @@ def r7(ctx) -> None:
            construct="def objective_function")
 
 
+def r8(ctx) -> None:
+    """The one mutation the caller's parameters see (expression refresh) is an exact fixed point (shared with C12-R2)."""
+    from glint.rules.c12 import r2 as fixed_point
+
+    fixed_point(ctx, rule="C10-R8")
+
+
 def check(ctx) -> None:
     for g in check.groups:
         g(ctx)
 
 
-check.groups = [r1, r2, r3, r4, r5, r6, r7]
+check.groups = [r1, r2, r3, r4, r5, r6, r7, r8]
